@@ -693,9 +693,9 @@ def run(tier, seed):
                                             f"{deadlocks} fail", {"case": c, "enumerate": True}))
     finally:
         shutil.rmtree(wd, ignore_errors=True)
-    res, errs = common.eval_cases_multi("C12", HEADER, [t for t, _ in coq_cases], ["c12_check", "c12_check_net"], shard=8)
+    res, errs = common.eval_cases_multi("C12", HEADER, [t for t, _ in coq_cases], ["c12_check", "c12_check_net", "c12_check_sync"], shard=8)
     flagged = {common.case_hash(v.replay.get("case")) for v in violations if "case" in v.replay}
-    for fn in ("c12_check", "c12_check_net"):
+    for fn in ("c12_check", "c12_check_net", "c12_check_sync"):
         for j in res[fn]:
             c = coq_cases[j][1]
             if common.case_hash(c) in flagged:
@@ -712,11 +712,11 @@ def run(tier, seed):
                 "is received; some as real processes; runs with 2-3 chains and 1-3 proposals "
                 "under every interleaving (depth-first enumeration); non-trivial = at least one scheduled exchange",
         "samples": samples, "violations": violations,
-        "traces_validated_against_impl": len(coq_cases) - len(set(res["c12_check"]) | set(res["c12_check_net"])),
-        "coverage": {"distribution": dist, "coq_cases": len(coq_cases), "correspondence_failures": len(set(res["c12_check"]) | set(res["c12_check_net"]))},
+        "traces_validated_against_impl": len(coq_cases) - len(set(res["c12_check"]) | set(res["c12_check_net"]) | set(res["c12_check_sync"])),
+        "coverage": {"distribution": dist, "coq_cases": len(coq_cases), "correspondence_failures": len(set(res["c12_check"]) | set(res["c12_check_net"]) | set(res["c12_check_sync"]))},
         "trusted_base": ["chain processes communicate only through the pipes of PipeMatrix (no shared memory); a pipe is FIFO and pickles what it carries; recv blocks; the theorems hold for "
-                         "queues of every capacity >= 1 message (a full queue blocks the sender) and for unbounded ones; a single message larger than the operating system's pipe buffer "
-                         "(send completing only while the peer receives) is not modelled",
+                         "queues of every capacity >= 1 message (a full queue blocks the sender), for unbounded ones, and for synchronous pipes (send returns when the message has been "
+                         "received: a message larger than the operating system's pipe buffer); byte-level partial writes in between are not modelled",
                          "the cooperative scheduler interleaves at send/recv boundaries only: the code between two pipe operations of a chain touches only that chain's state",
                          "transitions enter the Coq instance as the observed (state before, state after) pairs; targets, exp and the exchange uniforms as logged tables"],
     }
@@ -731,9 +731,9 @@ def replay(doc):
         for v in vs:
             print(v.key, "::", v.what)
         if not vs and complete:
-            res, errs = common.eval_cases_multi("C12r", HEADER, [coq_case(c, ref)], ["c12_check", "c12_check_net"], shard=8)
+            res, errs = common.eval_cases_multi("C12r", HEADER, [coq_case(c, ref)], ["c12_check", "c12_check_net", "c12_check_sync"], shard=8)
             print("model:", res, errs[:1])
-            return 1 if (res["c12_check"] or res["c12_check_net"] or errs) else 0
+            return 1 if (res["c12_check"] or res["c12_check_net"] or res["c12_check_sync"] or errs) else 0
     finally:
         shutil.rmtree(wd, ignore_errors=True)
     return 1 if vs else 0
